@@ -573,7 +573,8 @@ Fixpoint scmd_wf (n : nat) (c : scmd) : bool :=
 Definition spec_wf (n : nat) (sp : screen_spec) : bool :=
   forallb (scmd_wf n) (sc_refresh sp) && forallb (scmd_wf n) (sc_show sp) && forallb (scmd_wf n) (sc_closed sp) &&
   forallb (fun kv => forallb (scmd_wf n) (fst (snd kv))) (sc_input sp) &&
-  forallb (scmd_wf n) (fst (sc_input_default sp)).
+  forallb (scmd_wf n) (fst (sc_input_default sp)) &&
+  forallb (forallb (scmd_wf n)) (sc_custom sp).
 Definition saction_wf (n : nat) (a : saction) : bool :=
   match a with SACmds l => forallb (scmd_wf n) l | SARun => true end.
 Definition wf_session (specl : list screen_spec) (quit : option nat) (acts : list saction) : bool :=
@@ -756,11 +757,11 @@ Section Screens.
   Definition quiet_tag (tag : nat) : bool :=
     (tag =? T_PROMPT)%nat || (tag =? T_INPUT)%nat || (tag =? T_MODAL_RETURN)%nat || (tag =? T_REFUSED)%nat ||
     (tag =? T_READY)%nat || (tag =? T_GOT)%nat || (tag =? T_MARK)%nat || (tag =? T_ASK)%nat ||
-    (tag =? T_REQ)%nat || (tag =? T_ACTION)%nat || (tag =? T_WAITED)%nat.
+    (tag =? T_REQ)%nat || (tag =? T_ACTION)%nat || (tag =? T_WAITED)%nat || (tag =? T_CUSTOM)%nat.
 
   Lemma quiet_tag_cases tag : quiet_tag tag = true ->
     tag = T_PROMPT \/ tag = T_INPUT \/ tag = T_MODAL_RETURN \/ tag = T_REFUSED \/ tag = T_READY \/ tag = T_GOT \/
-    tag = T_MARK \/ tag = T_ASK \/ tag = T_REQ \/ tag = T_ACTION \/ tag = T_WAITED.
+    tag = T_MARK \/ tag = T_ASK \/ tag = T_REQ \/ tag = T_ACTION \/ tag = T_WAITED \/ tag = T_CUSTOM.
   Proof. unfold quiet_tag. rewrite !orb_true_iff, !Nat.eqb_eq. tauto. Qed.
 
   Lemma cstep_quiet c tag a t : quiet_tag tag = true -> cstep c (EUser tag a t) = c.
@@ -1080,6 +1081,16 @@ Section Screens.
     intros Hb. pose proof (Hwf Hb x) as H. unfold spec_wf in H. rewrite !andb_true_iff in H. tauto.
   Qed.
 
+  (* the command list of every signal callback of a screen (an unknown callback does nothing) *)
+  Lemma wf_custom x k : b = true -> forallb (scmd_wf nscr) (nth k (sc_custom (specs x)) []) = true.
+  Proof.
+    intros Hb. pose proof (Hwf Hb x) as H. unfold spec_wf in H. rewrite !andb_true_iff in H.
+    destruct H as [_ H]. rewrite forallb_forall in H.
+    destruct (Nat.lt_ge_cases k (length (sc_custom (specs x)))) as [Hlt|Hge].
+    - apply H. apply nth_In. exact Hlt.
+    - rewrite nth_overflow by exact Hge. reflexivity.
+  Qed.
+
   Lemma assoc_str_wf key l cmds rv :
     forallb (fun kv => forallb (scmd_wf nscr) (fst (snd kv))) l = true ->
     assoc_str key l = Some (cmds, rv) -> forallb (scmd_wf nscr) cmds = true.
@@ -1290,7 +1301,7 @@ Section Screens.
     Proof.
       intros Hclose. induction c as [c IHc] using scmd_ind'. intros Hw self count.
       apply spec_intro. intros Ps pf cc u HI.
-      destruct c as [sc a|sc a|sc a|sc a| | | | | | | | |o|o| |tb|hh sk|hh| | | |k t e]; cbn [do_scmd].
+      destruct c as [sc a|sc a|sc a|sc a| | | | | | | | |o|o|cc0 ck|cc0 cp| |tb|hh sk|hh| | | |k t e]; cbn [do_scmd].
       - (* push *)
         ic_open HI pm rdy HG. wstep. apply wpc_ev_op; qstep.
         change (expect_of O_PUSH sc a _) with [XAppend sc a (Some false)].
@@ -1355,6 +1366,8 @@ Section Screens.
       - ic_open HI pm rdy HG. repeat wstep. ic_view HG.
       - ic_open HI pm rdy HG. repeat wstep. ic_view HG.
       - ic_open HI pm rdy HG. repeat wstep. ic_view HG.
+      - (* connect *) ic_open HI pm rdy HG. repeat wstep. ic_view HG.
+      - (* emit *) ic_open HI pm rdy HG. repeat wstep. ic_view HG.
       - wcall (get_input_blocking_spec self) Ps pf HI1 x; [exact HI | exact HI1 | exact HI1].
       - (* type-ahead flag *) ic_open HI pm rdy HG. repeat wstep. ic_view HG.
       - (* the application's own InputHandler object asks *)
@@ -1681,6 +1694,15 @@ Section Screens.
     Qed.
 
 
+    (* a screen's own signal callback: one event, then the screen's commands (outside any _process_screen frame) *)
+    Lemma custom_handler_spec k sg scr : spec n (custom_handler specs k sg scr).
+    Proof.
+      apply spec_intro. intros Ps pf cc u HI. ic_open HI pm rdy HG.
+      unfold custom_handler. repeat wstep.
+      wcall (run_cmds_spec scr 0 (nth k (sc_custom (specs scr)) []) (wf_custom scr k)) Ps pf HI1 x;
+        [ic_view HG | exact HI1 | exact HI1].
+    Qed.
+
     (* ---------------------------------------------------------------- the handler table *)
     Lemma Inv_handler_end Ps pf pf' hid sid how s :
       Inv Ps pf' s -> pf = (if (hid =? H_RENDER)%nat then tl pf' else pf') ->
@@ -1729,6 +1751,7 @@ Section Screens.
           destruct (hid =? H_CLOSE)%nat; [apply close_screen_spec; exact HI1|].
           destruct (hid =? H_RECEIVED)%nat; [apply input_received_handler_spec; exact HI1|].
           destruct (10 <=? hid)%nat; [apply input_ready_handler_spec; exact HI1|].
+          destruct (3 <=? hid)%nat; [apply custom_handler_spec; exact HI1|].
           apply ret_spec; exact HI1. }
         pose proof (wp_run _ _ _ _ _ _ W Hf E) as P.
         destruct o as [|x| |]; cbn [post] in P; try exact P.
